@@ -522,9 +522,9 @@ pub fn run(cfg: &RunCfg, replay: Option<&str>) -> i32 {
     let r = pr.run_regressions();
     pr.push(r);
     let c = pr.cfg.clone();
-    let r = run_lane(&c, "C14", &Lane { name: "ops-allocation-tracked", cases: c.cases(400_000, 15_000_000), max_len: 128, sched_len: 0, workers: 0, f: &case_tracked });
+    let r = run_lane(&c, "C14", &Lane { name: "ops-allocation-tracked", cases: c.cases(2_000_000, 30_000_000), max_len: 128, sched_len: 0, workers: 0, f: &case_tracked });
     pr.push(r);
-    let r = run_lane(&c, "C14", &Lane { name: "ops-with-threads", cases: c.cases(20_000, 500_000), max_len: 128, sched_len: 0, workers: 0, f: &case_threads });
+    let r = run_lane(&c, "C14", &Lane { name: "ops-with-threads", cases: c.cases(60_000, 1_000_000), max_len: 128, sched_len: 0, workers: 0, f: &case_threads });
     pr.push(r);
     let r = exhaustive(&pr);
     pr.push(r);
